@@ -123,10 +123,13 @@ def gen(rng, tier):
             out.append(Case("crc.residue " + hx(b), kind="residue", theorem="C13_residue_zero"))
         if i % 8 == 0 and L <= 1024:
             out.append(Case("crc.spec " + hx(b), kind="spec-direct", theorem="C13_compute_crc_is_mpeg2"))
+        if i % 8 == 4 and L <= 1024:
+            out.append(Case("crc.tab " + hx(b), kind="spec-table-direct", theorem="C13_compute_crc_is_table_driven"))
     # 5. the specification itself against the real code on the small domain (lengths 0..1 complete, sample of 2)
     out.append(Case("crc.spec x", kind="spec-direct", theorem="C13_compute_crc_is_mpeg2"))
     for a in range(256):
         out.append(Case("crc.spec " + hx(bytes([a])), kind="spec-direct", theorem="C13_compute_crc_is_mpeg2"))
+        out.append(Case("crc.tab " + hx(bytes([a])), kind="spec-table-direct", theorem="C13_compute_crc_is_table_driven"))
         out.append(Case("crc.residue " + hx(bytes([a])), kind="residue", theorem="C13_residue_zero"))
     for _ in range(20000 if thorough else 1000):
         out.append(Case("crc.spec " + hx(bytes([rng.randrange(256), rng.randrange(256)])), kind="spec-direct",
